@@ -372,4 +372,4 @@ def run(chk: common.Check) -> None:
         if rejected:
             cfg, lines, k, sched = min(rejected, key=lambda r: len(r[1]))
             d = {'config': cfg, 'schedule': sched, 'observed_labels': lines, 'rejected_at': k}
-        chk.violation('C19: ' + broken[0], {'no_longer_checks': broken, 'shortest_rejected_trace': d}, no_input=True)
+        chk.violation('C19: ' + ' | '.join(broken[:3]), {'no_longer_checks': broken, 'shortest_rejected_trace': d}, no_input=True)
